@@ -19,6 +19,7 @@ Implementation: Composition pattern with helper classes, AST-based analysis with
 
 """
 
+from pathlib import Path
 from typing import Any
 
 from src.analyzers.rust_base import TREE_SITTER_RUST_AVAILABLE
@@ -26,6 +27,7 @@ from src.core.base import BaseLintContext, MultiLanguageLintRule
 from src.core.linter_utils import load_linter_config, with_parsed_python
 from src.core.types import Violation
 from src.linter_config.ignore import get_ignore_parser
+from src.linter_config.pattern_utils import matches_pattern
 
 from .config import NestingConfig
 from .python_analyzer import PythonNestingAnalyzer
@@ -71,6 +73,14 @@ class NestingDepthRule(MultiLanguageLintRule):
             NestingConfig instance
         """
         return load_linter_config(context, "nesting", NestingConfig)
+
+    def _dispatch_by_language(self, context: BaseLintContext, config: Any) -> list[Violation]:
+        """Skip files matching the linter's own ignore list, then dispatch by language."""
+        if config.ignore and context.file_path is not None:
+            path_str = Path(context.file_path).as_posix()
+            if any(matches_pattern(path_str, p) or p in path_str for p in config.ignore):
+                return []
+        return super()._dispatch_by_language(context, config)
 
     def _process_python_functions(
         self, functions: list, analyzer: Any, config: NestingConfig, context: BaseLintContext
